@@ -24,6 +24,7 @@ EXPLANATION = (
     "sizeof(*array) and the scalar writer of the same type.")
 
 RULES = {
+    "C17-XC": "(thorough) decision tables of the configuration-independent functions of this property are identical in every build configuration",
     "C17-B1": "header: formatted value == stored remaining == length parameter, no narrowing; '#', digit count, header_len + 2; header buffer in bounds",
     "C17-B2": "data call: remaining < len => -310, 0, no write; else remaining -= len before the write; counted only when remaining == 0",
     "C17-B3": "byte order: enum aliases, native probe, binary producer decision table, SCPI_Swap16/32/64 are byte reversals",
@@ -446,6 +447,8 @@ def run(ck, fb, tier):
         rule_b3(ck, prog, S)
         rule_b4(ck, prog)
     ck.assume("block lengths below 10^9 (the property's range): the 10-byte decimal field of the header then always holds a NUL")
+    if tier == "thorough":
+        K.cross_config(ck, fb, "C17-XC", ['SCPI_ResultArbitraryBlockData', 'produceResultArrayBinary', 'SCPI_ResultArbitraryBlockHeader'])
 
 
 TECHNIQUE = ("static analysis: expression pairing for the block header, decision table of the data call by path enumeration, "
